@@ -560,6 +560,44 @@ def check_two_runs(name, between, seed):
     return out
 
 
+def check_mixed_classes(order, how):
+    """Individuals of the framework's different classes (a sweep after an NSGA-II run, gradient children next to an NSGA-II
+    population, swarm particles) recorded into ONE store: every recorded individual has its own row."""
+    from .c_support import make_problem, reset_ids
+    from .c20 import make_as
+    from artap.datastore import SqliteDataStore, DummyDataStore
+    reset_ids()
+    problem = make_problem(n_params=2, bounds=[[0.0, 1.0]] * 2, criteria=["minimize", "minimize"])
+    db = fresh_db("c10mixed")
+    store = SqliteDataStore(problem, database_name=db)
+    problem.data_store = store
+    desc = "individuals of classes %r recorded into one store (%s)" % (order, how)
+    try:
+        for k, cls in enumerate(order):
+            ind = make_as(cls, [0.1 * k, 0.5])
+            ind.costs = [float(k), float(10 - k)]
+            ind.costs_signed = [float(k), float(10 - k), True]
+            ind.population_id = k % 3
+            problem.individuals.append(ind)
+            if how == "each":
+                store.sync_individual(ind)
+        if how == "all":
+            store.sync_all()
+    except Exception as e:
+        return [("C10:mixed-classes:exception:%s" % type(e).__name__, "%s raised %r" % (desc, e))]
+    problem.data_store = DummyDataStore()
+    out = []
+    ids = [i.id for i in problem.individuals]
+    if len(set(ids)) != len(ids):
+        out.append(("C10:mixed-classes:ids-not-unique", "%s: ids %r" % (desc, ids)))
+    out += [(k.replace("C10:", "C10:mixed-classes:", 1), m) for k, m in observe_all(problem, db, desc)]
+    try:
+        store.destroy()
+    except Exception:
+        pass
+    return out
+
+
 def check_sessions(name, seed, sessions=2):
     """Several sessions on ONE store file, each in a fresh interpreter as far as the id counter goes (it restarts at 0):
     a session opens the existing file in write mode (which loads it) and runs the algorithm. Afterwards every individual
@@ -666,6 +704,19 @@ def _shard(shard, col: Collector):
                     col.violation(key.replace("C10:", "C10:locked:", 1) if not key.startswith("C10:locked") else key, "history", msg,
                                   {"history": hist, "variant": variant})
         col.sample({"kind": "synchronisation under a foreign lock", "variant": variant, "locked_answers": [1, 8, 60]}, 1)
+    elif kind == "mixed":
+        import itertools as _it
+        classes = ("Individual", "IndividualNSGAII", "IndividualEpsMOEA", "IndividualSwarm")
+        for n in (2, 3, 4):
+            for order in _it.product(classes, repeat=n):
+                if len(set(order)) < 2:
+                    continue
+                for how in ("each", "all"):
+                    col.case()
+                    col.nontrivial(("mixed", order, how))
+                    for key, msg in check_mixed_classes(order, how):
+                        col.violation(key, "mixed", msg, {"order": order, "how": how})
+        col.sample({"kind": "individuals of different classes in one store", "classes": list(classes)}, 1)
     elif kind == "sessions":
         _, name, seed, n = shard
         col.case()
@@ -698,6 +749,8 @@ def replay(sub, case):
         return check_two_stores(tt(case["h1"]), tt(case["h2"]))
     if sub == "run":
         return check_run(case["name"], case["seed"])
+    if sub == "mixed":
+        return check_mixed_classes(tuple(case["order"]), case["how"])
     if sub == "sessions":
         return check_sessions(case["name"], case["seed"], case["sessions"])
     if sub == "tworuns":
@@ -717,6 +770,7 @@ def run(tier, seed):
     shards.append(("two",))
     for variant in ("float", "nts"):
         shards.append(("locked", variant))
+    shards.append(("mixed",))
     for name in ("NSGAII", "EpsMOEA", "SMPSO", "Sweep"):
         for n in (2, 3):
             shards.append(("sessions", name, seed, n))
